@@ -10,8 +10,13 @@ package migration
 // A segment is one job: {reset, then steps}. Steps are reconcile (with the set of failing write indices),
 // legal environment events, tick, restart. After every step the harness logs the job status, the reservation
 // and the pod AS READ FROM THE API SERVER, and for a reconcile every call the controller issued (Evict,
-// CreateReservation, DeleteReservation, Preempt), each stamped with the reservation and pod state read from
-// the API server at that instant. There is no oracle here: TLC decides (MigrationJobTrace.tla).
+// CreateReservation, DeleteReservation, Preempt), each stamped with the reservation and pod state and the job's
+// persisted phase (jp) read from the API server at that instant, and "writes": for every write of the PodMigrationJob
+// that the API server accepted during this Reconcile (Update, Status().Update, Patch, Status().Patch; seen by the
+// fault-injecting interceptor), in order, the phase of the job as read back from the API server right after it - the
+// sequence of persisted phases an observer of the API server sees within one Reconcile ("nwrites" counts every write
+// attempt incl. reservation writes and the eviction request: the indices "fail" refers to).
+// There is no oracle here: TLC decides (MigrationJobTrace.tla).
 //
 // Projection (field reads only):
 //   job   Status.Phase/Reason/Status/NodeName, Spec.PodRef.UID ("u<k>" -> k), ReservationRef != nil,
@@ -135,6 +140,7 @@ type c17World struct {
 	fail   map[int]bool
 	hit    bool
 	calls  []interface{}
+	jw     []string // persisted phase after every accepted write of the job
 	// statistics (coverage report only)
 	st *c17Stats
 }
@@ -156,6 +162,24 @@ func (m *c17Mgr) GetClient() client.Client    { return m.c }
 func (m *c17Mgr) GetAPIReader() client.Reader { return m.c }
 
 var c17Injected = apierrors.NewServiceUnavailable("verif: injected API failure")
+
+// an accepted write of obj: when it is the job, log the phase the API server now holds
+func (w *c17World) wrote(obj client.Object, err error) error {
+	if err == nil && w != nil && w.inRec {
+		if _, ok := obj.(*sev1alpha1.PodMigrationJob); ok {
+			w.jw = append(w.jw, w.persistedPhase())
+		}
+	}
+	return err
+}
+
+func (w *c17World) persistedPhase() string {
+	job := &sev1alpha1.PodMigrationJob{}
+	if err := w.api.Get(context.TODO(), types.NamespacedName{Name: c17JobName}, job); err != nil {
+		panic(err)
+	}
+	return string(job.Status.Phase)
+}
 
 // next write attempt of the running Reconcile; true = make it fail
 func (w *c17World) write() bool {
@@ -190,13 +214,13 @@ func c17Server() {
 			if wr() {
 				return c17Injected
 			}
-			return c.Create(ctx, obj, opts...)
+			return c17Cur.wrote(obj, c.Create(ctx, obj, opts...))
 		},
 		Update: func(ctx context.Context, c client.WithWatch, obj client.Object, opts ...client.UpdateOption) error {
 			if wr() {
 				return c17Injected
 			}
-			return c.Update(ctx, obj, opts...)
+			return c17Cur.wrote(obj, c.Update(ctx, obj, opts...))
 		},
 		Delete: func(ctx context.Context, c client.WithWatch, obj client.Object, opts ...client.DeleteOption) error {
 			if wr() {
@@ -208,19 +232,19 @@ func c17Server() {
 			if wr() {
 				return c17Injected
 			}
-			return c.Patch(ctx, obj, patch, opts...)
+			return c17Cur.wrote(obj, c.Patch(ctx, obj, patch, opts...))
 		},
 		SubResourceUpdate: func(ctx context.Context, c client.Client, sub string, obj client.Object, opts ...client.SubResourceUpdateOption) error {
 			if wr() {
 				return c17Injected
 			}
-			return c.SubResource(sub).Update(ctx, obj, opts...)
+			return c17Cur.wrote(obj, c.SubResource(sub).Update(ctx, obj, opts...))
 		},
 		SubResourcePatch: func(ctx context.Context, c client.Client, sub string, obj client.Object, patch client.Patch, opts ...client.SubResourcePatchOption) error {
 			if wr() {
 				return c17Injected
 			}
-			return c.SubResource(sub).Patch(ctx, obj, patch, opts...)
+			return c17Cur.wrote(obj, c.SubResource(sub).Patch(ctx, obj, patch, opts...))
 		},
 	})
 }
@@ -410,10 +434,17 @@ func (w *c17World) obs() vu.Ev {
 }
 
 // the environment at this instant, for stamping a call
-func (w *c17World) stamp() (vu.Ev, vu.Ev) { return c17ResvObs(w.getResv()), c17PodObs(w.getPod()) }
+func (w *c17World) stamp() (vu.Ev, c17Stamp) {
+	return c17ResvObs(w.getResv()), c17Stamp{p: c17PodObs(w.getPod()), jp: w.persistedPhase()}
+}
 
-func (w *c17World) call(kind string, ok bool, r, p vu.Ev, arg vu.Ev) {
-	e := vu.Ev{"kind": kind, "ok": ok, "r": r, "p": p}
+type c17Stamp struct {
+	p  vu.Ev
+	jp string // the job's persisted phase
+}
+
+func (w *c17World) call(kind string, ok bool, r vu.Ev, ps c17Stamp, arg vu.Ev) {
+	e := vu.Ev{"kind": kind, "ok": ok, "r": r, "p": ps.p, "jp": ps.jp}
 	if arg != nil {
 		e["arg"] = arg
 	}
@@ -522,7 +553,7 @@ func (w *c17World) exec(s c17Step) {
 	w.st.steps++
 	switch s.Op {
 	case "reconcile":
-		w.inRec, w.wcount, w.hit, w.calls = true, 0, false, []interface{}{}
+		w.inRec, w.wcount, w.hit, w.calls, w.jw = true, 0, false, []interface{}{}, []string{}
 		w.fail = map[int]bool{}
 		fl := []int{}
 		for _, k := range s.Fail {
@@ -532,7 +563,7 @@ func (w *c17World) exec(s c17Step) {
 		sort.Ints(fl)
 		_, err := w.r.Reconcile(ctx, reconcile.Request{NamespacedName: types.NamespacedName{Name: c17JobName}})
 		w.inRec = false
-		e["fail"], e["hit"], e["writes"], e["err"], e["calls"] = fl, w.hit, w.wcount, err != nil, w.calls
+		e["fail"], e["hit"], e["nwrites"], e["writes"], e["err"], e["calls"] = fl, w.hit, w.wcount, w.jw, err != nil, w.calls
 		applied = true
 		w.st.reconciles++
 		if w.hit {
@@ -714,6 +745,17 @@ func c17RandomRun(rec *vu.Recorder, st *c17Stats, rng *rand.Rand, steps int) {
 		}
 	}
 	faultProb := rng.Intn(3) // 0: fault-free segment (Once), 1: some faults, 2: many
+	// two segments in five steer the reservation through "reported unschedulable (still Pending) and only LATER scheduled /
+	// expired / failed for good / deleted", mostly with a reconcile in between so that the job has seen (and recorded) the
+	// unschedulable round; the node it is scheduled on later is the pod's own node in about half of the cases
+	unschedFirst := rng.Intn(5) < 2
+	// one of the other segments in four is a fault-free "happy path": whenever an environment event would let the migration
+	// make progress (reservation scheduled elsewhere, evicted pod gone, reservation consumed) it is mostly that one - so
+	// that jobs which SUCCEED, and are reconciled again afterwards (after their TTL, too), are not rare
+	happy := !unschedFirst && rng.Intn(4) == 0
+	if happy {
+		faultProb = 0
+	}
 	for i := 0; i < steps; i++ {
 		k := rng.Intn(100)
 		if k < 45 {
@@ -749,6 +791,22 @@ func c17RandomRun(rec *vu.Recorder, st *c17Stats, rng *rand.Rand, steps int) {
 		}
 		if r != nil {
 			switch {
+			case unschedFirst && c17IsPendingPhase(r) && !c17HasUnsched(r):
+				add(8, c17Step{Op: "runsched"})
+				add(1, c17Step{Op: "rsched", Node: otherNode()})
+				add(1, c17Step{Op: "runsched", Hard: true})
+			case unschedFirst && c17IsPendingPhase(r):
+				// unschedulable so far; what comes after it
+				if p := w.getPod(); p != nil {
+					add(6, c17Step{Op: "rsched", Node: p.Spec.NodeName})
+				}
+				add(4, c17Step{Op: "rsched", Node: otherNode()})
+				add(1, c17Step{Op: "rsched", Node: node()})
+				add(2, c17Step{Op: "rexpire"})
+				add(2, c17Step{Op: "runsched", Hard: true})
+				if w.preempt {
+					add(2, c17Step{Op: "runsched", Hard: true, Np: true})
+				}
 			case c17IsPendingPhase(r):
 				add(5, c17Step{Op: "rsched", Node: otherNode()})
 				add(1, c17Step{Op: "rsched", Node: node()})
@@ -797,14 +855,33 @@ func c17RandomRun(rec *vu.Recorder, st *c17Stats, rng *rand.Rand, steps int) {
 		if evicting {
 			add(2, c17Step{Op: "podreplace", Node: rn, Ready: rng.Intn(2) == 0})
 		}
-		if rng.Intn(25) == 0 {
+		if happy && rng.Intn(4) != 0 {
+			p := w.getPod()
+			switch {
+			case r != nil && c17IsPendingPhase(r):
+				cand = []c17Step{{Op: "rsched", Node: otherNode()}}
+			case r != nil && reservationutil.IsReservationAvailable(r) && evicting && p != nil:
+				cand = []c17Step{{Op: "poddelete"}}
+			case r != nil && reservationutil.IsReservationAvailable(r) && evicting && p == nil:
+				cand = []c17Step{{Op: "rbind", Who: "other"}}
+			}
+		} else if rng.Intn(25) == 0 {
 			// now and then an event that is NOT legal now: must be recorded as not applied
 			cand = []c17Step{{Op: "rbind", Who: "same"}, {Op: "rpreempted"}, {Op: "rsched", Node: node()}, {Op: "podready"}}
 		}
-		w.exec(cand[rng.Intn(len(cand))])
+		s := cand[rng.Intn(len(cand))]
+		w.exec(s)
+		if unschedFirst && s.Op == "runsched" && !s.Hard && rng.Intn(4) != 0 {
+			w.exec(c17Step{Op: "reconcile"}) // the job gets to see the unschedulable round
+			i++
+		}
 	}
-	// let the controller have the last word
+	// let the controller have the last word; in half of the segments with a TTL the job - finished or not - is reconciled
+	// once more after the TTL has passed
 	w.exec(c17Step{Op: "reconcile"})
+	if w.ttl > 0 && rng.Intn(2) == 0 {
+		w.exec(c17Step{Op: "tick", N: w.ttl})
+	}
 	w.exec(c17Step{Op: "reconcile"})
 	if st.calls["Evict"] > ev0 {
 		st.evictRuns++
@@ -851,7 +928,7 @@ func TestVerifC17(t *testing.T) {
 		nscripts++
 	}
 	if vu.ReplayPath() == "" {
-		n, steps := 400, 18
+		n, steps := 500, 18
 		if vu.Thorough() {
 			n, steps = 8000, 22
 		}
